@@ -631,6 +631,33 @@ pub fn run_c16(_args: &Args, tier: &str, seed: u64) -> Report {
             }
         }
     }
+    // a byte the PARSER takes as a group delimiter is reported and re-emitted as itself (all 256 bytes in first-delimiter position)
+    for b in 0..=255u8 {
+        rep.eval();
+        let mut msg = gen::HDR.to_vec();
+        if b != 0x01 {
+            msg.push(0x01); // C01's domain: the first group is the operation group
+        }
+        msg.push(b);
+        msg.extend_from_slice(&[0x21, 0, 1, b'a', 0, 4, 0, 0, 0, 7, 0x03]);
+        let data = Arc::new(msg);
+        let (src, _) = Scripted::new(data.clone(), Plan::full());
+        if let Ok(Ok(resp)) = catch(move || ipp::parser::IppParser::new(ipp::reader::IppReader::new(src)).parse()) {
+            // 0x03 ends the attributes (nothing behind it is a group), value tags start an attribute: neither is a group delimiter
+            if b != 0x03 && !(0x10..=0x4a).contains(&b) {
+                rep.count("bytes_parsed_as_group_delimiter", 1);
+                let last = resp.attributes().groups().last().map(|g| g.tag() as u8);
+                if last != Some(b) {
+                    rep.violation(format!("C16:delimiter:parsed-as-other:{b:#04x}"), format!("byte {b:#04x} in delimiter position is accepted by the parser and reported as group tag {last:?}"), none());
+                } else {
+                    let again = resp.to_bytes();
+                    if again.iter().filter(|x| **x == b).count() == 0 {
+                        rep.violation(format!("C16:delimiter:re-emitted-as-other:{b:#04x}"), format!("a group parsed from delimiter {b:#04x} is written without that byte"), none());
+                    }
+                }
+            }
+        }
+    }
     // a value decoded from tag byte b is emitted with tag byte b again, whatever its content (all 256 bytes, stand-alone decoder;
     // bodies: six fill patterns at eight lengths plus text samples with spaces, slashes, commas, non-ASCII, NUL and control characters)
     let mut bodies: Vec<Vec<u8>> = vec![];
@@ -1139,6 +1166,61 @@ pub(crate) fn c19_traverse(rep: &mut Report, v: &MVal, replay: &[String]) {
                 rep.violation("C19:traversal-resumes", format!("iterator over {} yielded items after returning None", mirror::vshort(v)), replay.to_vec());
             }
         }
+    }
+    // the same order through the rest of the Iterator protocol: whatever the traversal is driven by (nth, skip, step_by, count,
+    // last, size_hint), it visits the same elements; every adapter result is capped so that a repeating iterator cannot hang
+    let n = want.len();
+    let cap = n + 5;
+    let img = |it: &mut dyn Iterator<Item = &ipp::value::IppValue>| -> Vec<MVal> { it.take(cap).map(mirror::from_ipp_value).collect() };
+    let res = catch(|| {
+        let mut bad: Vec<String> = vec![];
+        for j in [0usize, 1, 2, n / 2, n.saturating_sub(1), n].into_iter().filter(|j| *j <= n) {
+            // advance j steps with next(), then nth(k) must be element j+k
+            for k in [0usize, 1, 3] {
+                let mut it = (&iv).into_iter();
+                for _ in 0..j {
+                    it.next();
+                }
+                let got = it.nth(k).map(mirror::from_ipp_value);
+                if got.as_ref() != want.get(j + k) {
+                    bad.push(format!("after {j} next() calls nth({k}) gave {:?}, expected element {}", got.as_ref().map(mirror::vshort), j + k));
+                }
+                // and the traversal continues right behind it
+                let rest = img(&mut it);
+                let want_rest: Vec<MVal> = want.iter().skip(j + k + 1).cloned().collect();
+                if rest != want_rest {
+                    bad.push(format!("after {j} next() calls and nth({k}) the rest has {} item(s), expected {}", rest.len(), want_rest.len()));
+                }
+            }
+            let mut it = (&iv).into_iter();
+            it.next();
+            let skipped = img(&mut it.skip(j));
+            if skipped != want.iter().skip(1 + j).cloned().collect::<Vec<_>>() {
+                bad.push(format!("next() then skip({j}) gave {} item(s), expected {}", skipped.len(), n.saturating_sub(1 + j)));
+            }
+        }
+        for step in [1usize, 2, 3] {
+            let got = img(&mut (&iv).into_iter().step_by(step));
+            if got != want.iter().step_by(step).cloned().collect::<Vec<_>>() {
+                bad.push(format!("step_by({step}) gave {} item(s), expected {}", got.len(), want.iter().step_by(step).count()));
+            }
+        }
+        if (&iv).into_iter().take(cap).count() != n {
+            bad.push("count() differs".into());
+        }
+        if (&iv).into_iter().take(cap).last().map(mirror::from_ipp_value).as_ref() != want.last() {
+            bad.push("last() differs".into());
+        }
+        let (lo, hi) = (&iv).into_iter().size_hint();
+        if lo > n || hi.map(|h| h < n).unwrap_or(false) {
+            bad.push(format!("size_hint ({lo}, {hi:?}) excludes the true length {n}"));
+        }
+        bad
+    });
+    match res {
+        Err(p) => rep.violation(format!("C19:panic:{}", panic_site(&p)), format!("iterator protocol over {}: {p}", mirror::vshort(v)), replay.to_vec()),
+        Ok(bad) if !bad.is_empty() => rep.violation("C19:traversal-differs:adapters", format!("iterator over {} ({} element(s)): {}", mirror::vshort(v), n, bad[..bad.len().min(3)].join("; ")), replay.to_vec()),
+        Ok(_) => {}
     }
 }
 
